@@ -92,17 +92,20 @@ def shrink(tag, failing, oracle, rounds=40):
 def excusable(case, a, b):
     """Is the disagreement between a crashed/faulted implementation run and the model's run of the
     same case explained by the two sources of call-count nondeterminism alone?  True only if the
-    normalised traces differ and every difference is (i) a crash cut falling at another call
-    because of an optional Chtimes: one normalised trace is a prefix of the other; (ii) a crash
+    raw traces differ and every difference is (i) a crash cut falling at another call because of
+    an optional Chtimes: the normalised traces are equal or one is a prefix of the other; (ii) a crash
     inside Rollback's first loop (a Go map range): both sides issued the same number of base
     Lstat calls and nothing else; (iii) a fault aimed at the n-th Chtimes of a path."""
-    found = False
+    # the raw traces must differ (equal raw traces mean the same calls were made: then any
+    # difference in results or dumps is a real one)
+    found = a.get("T") != b.get("T")
     for i in sorted(set(a["T"]) | set(b["T"])):
         op = case.ops[i] if i < len(case.ops) else None
         ta, tb = t2.norm_trace(op, a["T"].get(i, [])), t2.norm_trace(op, b["T"].get(i, []))
         if ta == tb:
+            # (the raw traces of this operation may still differ by an optional Chtimes, which
+            # shifts the crash cut by one call: covered by 'found')
             continue
-        found = True
         if case.crash >= 0:
             if op and op[0] == "rollback" and len(ta) == len(tb) and all(t.startswith("base lstat ") for t in ta + tb):
                 continue
